@@ -171,6 +171,33 @@ func (f *frame) contractCallEnv(ct *Contract, key string, fn *ssa.Function, extr
 	for k, v := range extra {
 		vars[k] = v
 	}
+	// interior pointers (&x.f, &a[i]) passed to a callee under contract: copy in / copy out through a
+	// temporary cell (sound when the callee's other parameters do not alias that location)
+	type copyBack struct {
+		path *PtrPath
+		box  Term
+	}
+	var backs []copyBack
+	args = append([]Val(nil), args...)
+	for i, a := range args {
+		pp, ok := a.(*PtrPath)
+		if !ok || pp.Kind == "global" || fn == nil || i >= len(fn.Params) {
+			continue
+		}
+		if _, isPtr := fn.Params[i].Type().Underlying().(*types.Pointer); !isPtr {
+			continue
+		}
+		box := u.alloc(f.cur, fn.Params[i].Type())
+		u.store(f.cur, box, u.load(f.cur, pp))
+		args[i] = box
+		backs = append(backs, copyBack{pp, box})
+		u.note("interior pointers passed to contract calls are modelled by copy-in/copy-out")
+	}
+	defer func() {
+		for _, b := range backs {
+			u.store(f.cur, b.path, u.load(f.cur, b.box))
+		}
+	}()
 	var pkg *ssa.Package
 	if fn != nil {
 		for i, p := range fn.Params {
@@ -588,8 +615,9 @@ func (f *frame) appendOp(c *ssa.CallCommon, ins ssa.Instruction) Val {
 			u.assume(Term{fmt.Sprintf("(= (select %s (+ (s-len %s) %d)) %s)", na, s.S, i, tAt(fmt.Sprint(i))), sBool})
 		}
 	} else {
-		u.assume(Term{fmt.Sprintf("(forall ((q_i Int)) (! (=> (and (<= 0 q_i) (< q_i %s)) (= (select %s (+ (s-len %s) q_i)) %s)) :pattern ((select %s (+ (s-len %s) q_i)))))",
-			tlen.S, na, s.S, tAt("q_i"), na, s.S), sBool})
+		// absolute-index form: for every index j of the appended part
+		u.assume(Term{fmt.Sprintf("(forall ((q_j Int)) (! (=> (and (<= (s-len %[1]s) q_j) (< q_j (+ (s-len %[1]s) %[2]s))) (= (select %[3]s q_j) %[4]s)) :pattern ((select %[3]s q_j))))",
+			s.S, tlen.S, na, tAt("(- q_j (s-len "+s.S+"))")), sBool})
 	}
 	u.assume(Term{fmt.Sprintf("(forall ((q_i Int)) (! (=> (and (<= 0 q_i) (< q_i (s-len %s))) (= (select %s q_i) %s)) :pattern ((select %s q_i))))",
 		s.S, na, sAt("q_i"), na), sBool})
